@@ -161,6 +161,9 @@ func C01Configs(thorough bool) []*world.Config {
 	// reload) and values whose static type is comparable while their content is not
 	add(world.IntCfg(2, []int{1, 2, 3, 4, 8}, []interface{}{&world.SVal{Asdf: "a", Q: true}, &world.SVal{Asdf: "b"}}, &world.SVal{}, B, "none"))
 	add(world.IntCfg(4, []int{1, 2, 3, 4, 8}, []interface{}{&world.TVal{Tags: []string{"x"}}, &world.TVal{Tags: []string{"y", "z"}}}, &world.TVal{}, M, "none"))
+	// a nil pointer is a value like any other (encoded as null)
+	add(world.IntCfg(2, []int{1, 2, 3, 4}, []interface{}{&world.SVal{Asdf: "a", Q: true}, (*world.SVal)(nil)}, &world.SVal{}, M, "none"))
+	add(world.IntCfg(4, []int{1, 2, 3, 4, 8}, []interface{}{(*world.TVal)(nil), &world.TVal{Tags: []string{"y", "z"}}}, &world.TVal{}, B, "none"))
 	add(world.IntCfg(2, []int{1, 2, 3, 4}, []interface{}{world.IVal{Name: "a", Extra: []interface{}{"x"}}, world.IVal{Name: "a", Extra: map[string]interface{}{"k": "v"}}}, world.IVal{}, M, "none"))
 	add(world.IntCfg(2, []int{1, 2, 3, 4}, []interface{}{world.IVal{Name: "a", Extra: []interface{}{"x"}}, world.IVal{Name: "b", Extra: "s"}}, world.IVal{}, B, "none"))
 	// values that differ only as nil versus empty: a delete with the other one must fail, an update must take effect
@@ -238,6 +241,7 @@ func C01(run *report.Run) {
 		acc := &pairAcc{}
 		bigC01(run, acc)
 		acc.flush(run)
+		swallowedFaultPass(run, "C01", "Insert", "Delete", "Get", "Iter")
 	}
 	run.Rule = "explicit-state BFS to closure over {insert,delete} x keys x values, MakeRoot, MakeRoot+LoadMast (and Get/Iter when a cache is attached); every transition executes the real implementation; states merged on the exact heap dump"
 	run.Assumptions = append(run.Assumptions, "finite key/value universes per configuration", "state merging is sound because equal dumps are isomorphic heaps and mast is deterministic (DESIGN 3.3)")
